@@ -3,6 +3,7 @@ import itertools
 import json
 import os
 import shutil
+import sys
 
 import semrun
 import vlib
@@ -24,6 +25,8 @@ def lib_source(rng, p, deps, feats):
     lo = p.lower()
     k1, k2 = rng.randint(2, 9), rng.randint(1, 5)
     out = ["package %s" % p] + ["import %s" % d for d in deps]
+    # first function of the package: the temporaries of the match compiler and of later passes start from the same counter value
+    out.append("fn %s_tup(p: (int32, int32)) -> int32 { let (a, b) = p; (a + b) * (a - b) + %s_val(a) * (b + %d) }" % (lo, lo, k2))
     out.append("struct %sS { v: int32, w: string }" % p)
     out.append("enum %sE { %sX, %sY(int32), %sZ(%sS) }" % (p, p, p, p, p))
     out.append("struct %sBox[T] { item: T }" % p)
@@ -49,6 +52,11 @@ def lib_source(rng, p, deps, feats):
     out.append('fn %s_mk(n: int32) -> %sS { %sS { v: n, w: "%s" + int32_to_string(n) } }' % (lo, p, p, lo))
     out.append("fn %s_en(n: int32) -> %sE { if n == 0 { %sX } else { if n < 5 { %sY(n) } else { %sZ(%s_mk(n)) } } }" % (lo, p, p, p, p, lo))
     out.append('fn %s_match(e: %sE) -> string { match e { %sX => "x", %sY(k) => "y" + int32_to_string(k), %sZ(s) => "z" + %sT::show(s) } }' % (lo, p, p, p, p, p))
+    # bodies that make every pass generate names: tuple and struct patterns, nested and string matches, closures, loops
+    out.append("fn %s_tmatch(p: (int32, bool)) -> int32 { match p { (0, _) => 1, (n, true) => n * 2 + %d, (n, false) => n - 1 } }" % (lo, k1))
+    out.append("fn %s_spat(s: %sS) -> int32 { let %sS { v: vv, w: ww } = s; match ww { \"a\" => vv, _ => vv + string_len(ww) } }" % (lo, p, p))
+    out.append("fn %s_clo(n: int32) -> int32 { let r = ref(0); let add = |d: int32| { let _ = ref_set(r, ref_get(r) + d * n); ref_get(r) }; let _ = add(1); let c = ref(0); while ref_get(c) < 3 { let _ = add(ref_get(c)); ref_set(c, ref_get(c) + 1) }; add(2) }" % lo)
+    out.append("fn %s_arr(n: int32) -> int32 { let a = [n, n + 1, n + 2]; let v: Vec[int32] = vec_new(); let v = vec_push(vec_push(v, array_get(a, 1)), array_get(a, 2)); vec_get(v, 0) * vec_len(v) + (n, (n + 1, true)).0 }" % lo)
     if deps:
         d = deps[0]
         out.append("fn %s_via(n: int32) -> string { %s::%s_show(%s::%s_mk(n)) + %s::%s_match(%s::%s_en(n)) }" % (lo, d, d.lower(), d, d.lower(), d, d.lower(), d, d.lower()))
@@ -92,6 +100,13 @@ def gen_project(rng):
             "let bx%s%d: %s::%sBox[int32] = %s::%s_id(%s::%s_box(%d)); let _ = string_println(int32_to_string(bx%s%d.get()))" % (lo, n, d, d, d, lo, d, lo, n, lo, n),
             "string_println(%s::%sT::show(%s::%s_id(%s::%s_mk(%d))))" % (d, d, d, lo, d, lo, n),
         ]
+        cands += [
+            "string_println(int32_to_string(%s::%s_tup((%d, 3))))" % (d, lo, n),
+            "string_println(int32_to_string(%s::%s_tmatch((%d, %s))))" % (d, lo, n, rng.choice(["true", "false"])),
+            "string_println(int32_to_string(%s::%s_spat(%s::%s_mk(%d))))" % (d, lo, d, lo, n),
+            "string_println(int32_to_string(%s::%s_clo(%d)))" % (d, lo, n),
+            "string_println(int32_to_string(%s::%s_arr(%d)))" % (d, lo, n),
+        ]
         if shape[d]:
             cands += ["string_println(%s::%s_via(%d))" % (d, lo, n), "string_println(int32_to_string(%s::%s_gen(%d)))" % (d, lo, n)]
         for dd in shape[d]:
@@ -99,7 +114,7 @@ def gen_project(rng):
                 cands.append("string_println(%s::%sT::show(%s::%s_mk(%d)))" % (dd, dd, d, lo, n))  # may or may not have the impl
         if rng.random() < 0.5:
             cands.append("let dv%s%d: %s::%sS = %s::%s_mk(%d); let dy%s%d: dyn %s::%sT = dv%s%d; let _ = string_println(%s::%sT::show(dy%s%d))" % (lo, n, d, d, d, lo, n, lo, n, d, d, lo, n, d, d, lo, n))
-        for c in rng.sample(cands, min(len(cands), rng.randint(2, 5))):
+        for c in rng.sample(cands, min(len(cands), rng.randint(3, 8))):
             stmts.append("    let _ = %s;" % c if not c.startswith("let") else "    %s;" % c)
     # a package that only declares types (no function bodies), used by Main
     if rng.random() < 0.5:
@@ -164,6 +179,7 @@ def pkg_files(files, p):
 
 
 def check(run):
+    sys.path.insert(0, os.path.dirname(os.path.abspath(__file__)))
     run.level = "translation_validation"
     broken = []
     try:
@@ -235,6 +251,29 @@ def check(run):
                 stats["same_go_text"] += 1
             pairs.append((w["dumps"]["go_dbg"], link["go_dbg"]))
             pair_ix.append((i, order, link_order))
+        # both programs must be acceptable to Go (names declared once per scope, well-typed): the Go checker model on each
+        import c02 as c02mod
+        import go2coq
+        import rustdbg
+
+        gw_texts, gw_ix = [], []
+        for (i, order, link_order), (wd, ld) in zip(pair_ix, pairs):
+            for which, dbg in (("whole-program", wd), ("linked", ld)):
+                try:
+                    gw_texts.append("Definition f%d := %s.\n" % (len(gw_texts), go2coq.file(rustdbg.parse(dbg))))
+                    gw_ix.append((i, order, link_order, which))
+                except (go2coq.Conv, KeyError, AssertionError):
+                    pass
+        per_ = 16
+        codes = []
+        hdr = "From Goml Require Import Common.Base Sem.GoAst C02.GoCheck.\nOpen Scope N_scope.\n"
+        outs_ = vlib.coq_eval_many("c14wf", [hdr + "".join(gw_texts[k : k + per_]) + "Eval vm_compute in [%s].\n" % "; ".join("match go_wf f%d with [] => 0 | (_, (c, _)) :: _ => c end" % j for j in range(k, min(k + per_, len(gw_texts)))) for k in range(0, len(gw_texts), per_)], timeout=1500)
+        for o in outs_:
+            codes += vlib.parse_nat_list(o)
+        stats["go_checker_clean"] = sum(1 for c in codes if c == 0)
+        for (i, order, link_order, which), code in zip(gw_ix, codes):
+            if code:
+                wits.append({"kind": "Go would reject the %s program: %s" % (which, c02mod.CODES.get(code, code)), "files": projs[i][1], "order": order, "link_order": link_order})
         vs = semrun.go_pair_verdicts("c14", pairs)
         for (i, order, link_order), v in zip(pair_ix, vs):
             files = projs[i][1]
